@@ -103,3 +103,94 @@ Proof.
   - intros v Hv. simpl in Hv. simpl. lia.
   - vm_compute. reflexivity.
 Qed.
+
+(* ================================================================== *)
+(* order between output partitions: whatever divisions were chosen (npartitions, upsample, quantile estimates), sorting  *)
+(* every output partition yields a globally sorted frame                                                                *)
+(* ================================================================== *)
+
+Lemma bisect_right_mono : forall divs v w, (v <= w)%Z -> bisect_right divs v <= bisect_right divs w.
+Proof.
+  induction divs as [|a r IH]; intros v w H; simpl; [lia|].
+  destruct (a <=? v)%Z eqn:E1; destruct (a <=? w)%Z eqn:E2; try lia.
+  specialize (IH v w H). lia.
+Qed.
+
+Lemma bisect_right_pos : forall divs v, 1 <= length divs -> (nth 0 divs 0 <= v)%Z -> 1 <= bisect_right divs v.
+Proof.
+  intros [|a r] v Hl H; simpl in *; [lia|].
+  destruct (a <=? v)%Z eqn:E; lia.
+Qed.
+
+Theorem sp_part_mono : forall divs v w, 2 <= length divs -> (nth 0 divs 0 <= v)%Z -> (v <= w)%Z ->
+  sp_part divs v <= sp_part divs w.
+Proof.
+  intros divs v w Hl H0 Hvw. unfold sp_part.
+  pose proof (bisect_right_mono divs v w Hvw) as Hm.
+  pose proof (bisect_right_pos divs v ltac:(lia) H0) as Hp.
+  pose proof (bisect_right_le_length divs v) as Hb1.
+  pose proof (bisect_right_le_length divs w) as Hb2.
+  destruct ((bisect_right divs v =? 0) || (length divs - 1 <=? bisect_right divs v - 1)) eqn:E1;
+  destruct ((bisect_right divs w =? 0) || (length divs - 1 <=? bisect_right divs w - 1)) eqn:E2; lia.
+Qed.
+
+Theorem sp_part_desc_anti : forall divs v w, 2 <= length divs -> (nth 0 divs 0 <= v)%Z -> (v <= w)%Z ->
+  sp_part_desc divs w <= sp_part_desc divs v.
+Proof.
+  intros divs v w Hl H0 Hvw. unfold sp_part_desc.
+  pose proof (bisect_right_mono divs v w Hvw) as Hm.
+  pose proof (bisect_right_pos divs v ltac:(lia) H0) as Hp.
+  pose proof (bisect_right_le_length divs v) as Hb1.
+  pose proof (bisect_right_le_length divs w) as Hb2.
+  destruct ((bisect_right divs v =? 0) || (length divs <=? bisect_right divs v)) eqn:E1;
+  destruct ((bisect_right divs w =? 0) || (length divs <=? bisect_right divs w)) eqn:E2; lia.
+Qed.
+
+Lemma sp_parts_desc_nth : forall divs rows i, i < length divs - 1 ->
+  nth i (sp_parts_desc divs rows) [] = filter (fun v => sp_part_desc divs v =? i) rows.
+Proof.
+  intros divs rows i Hi. unfold sp_parts_desc.
+  set (f := fun i => filter (fun v => sp_part_desc divs v =? i) rows).
+  rewrite nth_indep with (d' := f 0) by (rewrite map_length, seq_length; exact Hi).
+  rewrite map_nth. rewrite seq_nth by exact Hi. reflexivity.
+Qed.
+
+(* ascending: every key of an earlier output partition is <= every key of a later one *)
+Theorem sort_partitions_ordered : forall divs rows i j x y, 2 <= length divs -> keys_above divs rows ->
+  i < j -> j < length divs - 1 ->
+  In x (nth i (sp_parts divs rows) []) -> In y (nth j (sp_parts divs rows) []) -> (x <= y)%Z.
+Proof.
+  intros divs rows i j x y Hl Hk Hij Hj Hx Hy.
+  apply set_index_partition_exact in Hx; [|lia]. apply set_index_partition_exact in Hy; [|lia].
+  destruct Hx as [Hx Ex], Hy as [Hy Ey].
+  destruct (Z_le_gt_dec x y) as [H|H]; [exact H|].
+  assert (Hm : sp_part divs y <= sp_part divs x) by (apply sp_part_mono; [exact Hl|apply Hk; exact Hy|lia]).
+  lia.
+Qed.
+
+(* descending: every key of an earlier output partition is >= every key of a later one *)
+Theorem sort_desc_partitions_ordered : forall divs rows i j x y, 2 <= length divs -> keys_above divs rows ->
+  i < j -> j < length divs - 1 ->
+  In x (nth i (sp_parts_desc divs rows) []) -> In y (nth j (sp_parts_desc divs rows) []) -> (y <= x)%Z.
+Proof.
+  intros divs rows i j x y Hl Hk Hij Hj Hx Hy.
+  rewrite sp_parts_desc_nth in Hx by lia. rewrite sp_parts_desc_nth in Hy by lia.
+  apply filter_In in Hx. apply filter_In in Hy.
+  destruct Hx as [Hx Ex], Hy as [Hy Ey].
+  destruct (Z_le_gt_dec y x) as [H|H]; [exact H|].
+  assert (Hm : sp_part_desc divs y <= sp_part_desc divs x) by (apply sp_part_desc_anti; [exact Hl|apply Hk; exact Hx|lia]).
+  lia.
+Qed.
+
+(* the hypothesis is needed: a key below the first division is sent to the last partition (ascending) *)
+Theorem sort_partitions_below_refuted : exists divs rows i j x y, 2 <= length divs /\ i < j /\ j < length divs - 1 /\
+  In x (nth i (sp_parts divs rows) []) /\ In y (nth j (sp_parts divs rows) []) /\ (y < x)%Z.
+Proof.
+  exists [10; 20; 30]%Z, [15; 5]%Z, 0, 1, 15%Z, 5%Z. vm_compute.
+  repeat split; try lia; left; reflexivity.
+Qed.
+
+Example sort_desc_example :
+  sp_parts_desc [0; 10; 20; 30]%Z [30; 0; 10; 29; 9; 20]%Z = [[30; 29; 20]; [10]; [0; 9]]%Z /\
+  keys_above [0; 10; 20; 30]%Z [30; 0; 10; 29; 9; 20]%Z.
+Proof. split; [vm_compute; reflexivity|]. intros v Hv. simpl in Hv. simpl. lia. Qed.
